@@ -1568,13 +1568,23 @@ def check_nocase(ctx, prog):
     def enc(c):
         return [b - 256 if b > 127 else b for b in chr(c).encode('utf-8')]
 
-    def lower(c):
+    fu = fn1(prog, 'asl::String::toUpperCase')
+    lenbad = []
+
+    def fold(g, c):
         by = enc(c)
         bufs = {'T': by + [0]}
-        r = scansim.Run(prog, fl, bufs, call_ptrs={'str': ('P', 'T', 0)}, methods={'*': 'interp'}, mems={'_len': len(by)}, objects=True)
+        r = scansim.Run(prog, g, bufs, call_ptrs={'str': ('P', 'T', 0)}, methods={'*': 'interp'}, mems={'_len': len(by)}, objects=True)
         ret = r.run()
         out = bufs[ret[1]]
+        if out.index(0) != len(out) - 1 and not lenbad:
+            # the result object's length is not the offset of its first NUL: comparisons by length and by C string disagree
+            lenbad.append('%s() of U+%04X returns a String of length %d whose text ends after %d byte(s): length() != strlen(), the result compares unequal to the same text built any other way' % (
+                g['n'], c, len(out) - 1, out.index(0)))
         return tuple(x & 255 for x in out[:out.index(0)])
+
+    def lower(c):
+        return fold(fl, c)
 
     def eqn(c1, c2):
         b1, b2 = enc(c1), enc(c2)
@@ -1593,11 +1603,16 @@ def check_nocase(ctx, prog):
     runs = 0
     try:
         L = {}
-        for c in sample + extra:
+        for c in sample + extra + [0x130, 0x131, 0x17f]:
             L[c] = lower(c)
-            runs += 1
+            up = fold(fu, c)
+            runs += 2
+            if c < 128 and (bytes(L[c]) != chr(c).lower().encode() or bytes(up) != chr(c).upper().encode()) and bad is None:
+                bad = 'U+%04X: toLowerCase gives %s, toUpperCase gives %s' % (c, bytes(L[c]), bytes(up))
+        if lenbad:
+            bad = lenbad[0]
         fixed = [0x40, 0x60, 0x5b, 0x7b, 0x41, 0x61]
-        for c1 in sample + extra:
+        for c1 in (sample + extra if bad is None else []):
             low1 = bytes(L[c1]).decode('utf-8', 'replace')
             partners = {c1, c1 ^ 0x20, c1 + 1}
             if len(low1) == 1:
